@@ -3,6 +3,7 @@ package exec
 import (
 	"fmt"
 	"go/types"
+	"math/big"
 	"strings"
 
 	"gosmt/sym"
@@ -332,6 +333,28 @@ func registerIntrinsics(m *Machine) {
 			return c.False
 		}
 		return c.Un(sym.OpFPIsNaN, sym.SBool, a[0].(T))
+	})
+	two64 := new(big.Int).Lsh(big.NewInt(1), 64)
+	I["math/bits.Mul64"] = inline(func(m *Machine, it *Item, a []Value) Value {
+		if !m.IntMode {
+			m.fail("math/bits.Mul64 is only modelled in int mode")
+		}
+		p := c.Bin(sym.OpMul, a[0].(T), a[1].(T))
+		t := c.IntBig(two64)
+		return Tuple{c.Bin(sym.OpUDiv, p, t), c.Bin(sym.OpURem, p, t)}
+	})
+	I["math/bits.Div64"] = inline(func(m *Machine, it *Item, a []Value) Value {
+		if !m.IntMode {
+			m.fail("math/bits.Div64 is only modelled in int mode")
+		}
+		hi, lo, y := a[0].(T), a[1].(T), a[2].(T)
+		m.obligePanic(it, m.sle(y, hi), "math/bits.Div64: quotient overflow or division by zero")
+		n := m.add(c.Bin(sym.OpMul, hi, c.IntBig(two64)), lo)
+		// q, r with n = q*y + r, 0 <= r < y  (relational: avoids non-linear div)
+		q := c.Fresh("div64q", sym.SInt)
+		r := c.Fresh("div64r", sym.SInt)
+		m.AssumeUnder(c.And(it.G, m.slt(hi, y)), c.And(c.Eq(n, m.add(c.Bin(sym.OpMul, q, y), r)), m.sle(m.IntC(0), r), m.slt(r, y), m.sle(m.IntC(0), q)), "math/bits.Div64: n = q*y + r, 0 <= r < y")
+		return Tuple{q, r}
 	})
 	// ---- terminal
 	cw := "github.com/vbauerster/mpb/v8/cwriter."
